@@ -1,4 +1,5 @@
 """C10 — a failing statement or a throwing sink disturbs nothing else (DESIGN §4 C10)."""
+import re
 from qlib import (AnalysisBroken, strip, isnode, walk, is_call, norm_cmp, var_ref, is_null, const_val, short, call_obj,
                   expr_key, field_name, is_this_field)
 from rules.common import (core_and_neg, tnode, other, cpos, npos, branches_on_call, in_subtree, try_stack, handler_info,
@@ -30,12 +31,16 @@ def run(ctx):
         r2(ctx, facts, cfg)
         r3(ctx, facts, cfg)
         r4(ctx, facts, cfg)
+        r8_notifier_callable(ctx, facts, cfg)
+        r10_error_owns_its_text(ctx, facts, cfg)
     # state that is reused from one statement to the next must not carry a failed (or any earlier) statement into the next one:
     # the shared argument store (= C04.R6) and the JSON sink's message buffer (= C19.R3)
     from rules import c04, c19
     from rules.c09 import Renamed
     c04.string_flag(Renamed(ctx, "C04.R6", "C10.R6"), ctx.facts("effects.cpp", "A", ()), ctx.facts("core.cpp", "A"))
     c19.r3(Renamed(ctx, "C19.R3", "C10.R7"), ctx.facts("core.cpp", "A"))
+    # the error path of a statement with named args (fewer arguments than names) writes within the list it sized (= C19.R2)
+    c19.r2(Renamed(ctx, "C19.R2", "C10.R9"), ctx.facts("core.cpp", "A"))
 
 
 def window_fns(facts, cfg):
@@ -229,3 +234,97 @@ def r4(ctx, facts, cfg):
             ctx.ob("C10.R4c", "%s:catch-all-present@%s" % (f.short.replace("quill::detail::", ""), t["loc"].split(":")[1]), "..." in caught,
                    "a try in the backend that catches std::exception also has a catch-all (any exception type): %s" % caught, loc=t["loc"], fn=f)
     ctx.floor("C10.R4b", "exception handlers in the backend", n, 10)
+
+
+def r8_notifier_callable(ctx, facts, cfg):
+    """R8: reporting never becomes the failure. BackendOptions documents an undefined error_notifier (`= {}`) as the way to disable
+    notifications, and every error path of the backend calls it — from catch handlers and from a noexcept function: calling an empty
+    std::function there throws bad_function_call out of the handler and ends the backend. Accepted: _init replaces an empty notifier by
+    a callable before anything else can fail (and nothing un-sets it later, C05.R1d); or every call is made only on the 'notifier is
+    set' outcome of a test. The tree itself shows the belief: one call site tests the notifier first (Engler's contradiction rule —
+    either that test is unnecessary or the unguarded calls are wrong)."""
+    init = facts.need(BW + "_init", cfg)[0]
+    g = init.g
+
+    def is_notifier(e):
+        e = strip(e, casts=True)
+        return isnode(e) and e["k"] == "MemberExpr" and e.get("mname") == "error_notifier"
+
+    def set_edges(f):
+        """[(bid, label of 'notifier is set')] for tests of the function object"""
+        out = []
+        for bid, b in f.g.blocks.items():
+            c = f.g.term_cond(bid)
+            if c is None:
+                continue
+            core, neg = core_and_neg(c)
+            core = strip(core, casts=True)
+            if is_call(core, r"std::function<.*>::operator bool$") and is_notifier(call_obj(core)):
+                out.append((bid, "F" if neg else "T"))
+            else:
+                k = None
+                try:
+                    from rules.common import eq_kind
+                    k = eq_kind(c)
+                except Exception:
+                    k = None
+                if k and any(is_notifier(s_) for s_ in k[1:]) and any(is_null(s_) for s_ in k[1:]):
+                    out.append((bid, "F" if k[0] == "==" else "T"))
+        return out
+    # (a) normalisation in _init
+    asg = [n for n in init.walk() if n["k"] == "CXXOperatorCallExpr" and short(n.get("callee") or "").endswith("operator=") and len(n["args"]) == 2 and
+           is_notifier(n["args"][0]) and any(x["k"] in ("LambdaExpr",) or (x["k"] == "DeclRefExpr" and x.get("dk") == "Function") for x in walk(n["args"][1]))]
+    se = set_edges(init)
+    ap = npos(init, asg)
+    whole = [n for n in init.walk() if n["k"] == "CXXOperatorCallExpr" and short(n.get("callee") or "").endswith("operator=") and len(n["args"]) == 2 and
+             is_this_field(n["args"][0], "_options")]
+    wp = npos(init, whole)
+    thr = npos(init, [x for x in init.walk() if x["k"] == "CXXThrowExpr"])
+    normalised = bool(asg) and bool(se) and bool(wp) and \
+        all(not g.exists_path([y for (y, l2) in g.succ.get(tnode(g, b), ()) if l2 == other(lab)], [g.exit_node] + thr, avoid_nodes=ap) for (b, lab) in se) and \
+        not g.exists_path(wp, thr + [g.exit_node], avoid_nodes=[tnode(g, b) for (b, lab) in se]) and not g.exists_path(ap, wp)
+    # (b) otherwise: every call guarded
+    unguarded = []
+    n_calls = 0
+    for f in facts.fns:
+        if f.config != cfg or f.rec.get("main") or not (f.short.startswith(BW) or f.short.startswith("quill::ManualBackendWorker::")):
+            continue
+        params = {p["did"] for p in f.rec.get("params") or [] if "std::function<void (const std::string &)>" in (p.get("ty") or "") or "function<void (const std::basic_string" in (p.get("ty") or "")}
+        for c in f.walk():
+            if c["k"] == "CXXOperatorCallExpr" and re.search(r"std::function<void \(const std::(__cxx11::)?basic_string.*\)>::operator\(\)$|std::function<void \(const std::string &\)>::operator\(\)$", c.get("callee") or "") and c.get("args"):
+                tgt = strip(c["args"][0], casts=True)
+                if not (is_notifier(tgt) or var_ref(tgt) in params):
+                    continue
+                n_calls += 1
+                se_f = set_edges(f)
+                cp = f.g.positions(c)
+                guarded = bool(se_f) and bool(cp) and not f.g.exists_path([f.g.entry_node], cp, avoid_edges=se_f)
+                if not guarded:
+                    unguarded.append("%s@%s" % (f.short.replace("quill::detail::", "").split("::lambda")[0], c["loc"].split(":", 1)[1]))
+    ctx.floor("C10.R8", "calls of the error notifier in the backend", n_calls, 15)
+    ctx.ob("C10.R8", "BackendWorker:error-notifier-callable-where-called", normalised or not unguarded,
+           "an undefined error_notifier (documented: disables notifications) is replaced by a callable at the top of _init, before "
+           "anything can fail (%s) — or every one of the %d calls is made only after testing it (unguarded: %s)"
+           % (normalised, n_calls, ", ".join(unguarded[:8]) + (" ..." if len(unguarded) > 8 else "")), fn=init)
+
+
+def r10_error_owns_its_text(ctx, facts, cfg):
+    """R10: the text handed to the error notifier is e.what() of an exception that was caught after the thrower's frame is gone: the
+    library's exception type owns its text (no pointer / view member; what() returns the owned string's characters), whatever the caller
+    built it from."""
+    crec = facts.cls("quill::QuillError", cfg)
+    if not crec:
+        raise AnalysisBroken("quill::QuillError not found")
+    nonown = [(x["name"], x.get("cty") or x.get("ty")) for x in crec["fields"] if re.search(r"basic_string_view|\*|&|reference_wrapper|span<", x.get("cty") or x.get("ty") or "")]
+    owned = [x["name"] for x in crec["fields"] if re.search(r"basic_string<char", x.get("cty") or "")]
+    w = facts.need("quill::QuillError::what", cfg)[0]
+    rets = [w.g.node_ast(r) for r in w.g.return_nodes()]
+    from_owned = bool(rets) and all(is_call(strip(r.get("val"), casts=True), r"basic_string<.*>::(data|c_str)$") and
+                                    is_this_field(call_obj(strip(r.get("val"), casts=True))) and field_name(call_obj(strip(r.get("val"), casts=True))) in owned for r in rets)
+    ctors = [f for f in facts.fns if f.config == cfg and f.cls == "quill::QuillError" and f.rec.get("ctor") and f.rec.get("params") and
+             "QuillError" not in (f.rec["params"][0].get("ty") or "")]
+    init_ok = bool(ctors) and all(any(i.get("member") in owned and i.get("written") and any(var_ref(x) == f.rec["params"][0]["did"] for x in walk(i.get("expr")))
+                                      for i in f.rec.get("inits") or []) for f in ctors)
+    ctx.ob("C10.R10", "QuillError:owns-its-text", not nonown and bool(owned) and from_owned and init_ok,
+           "no member merely refers to memory owned elsewhere (%s), every constructor copies / moves its argument into the owned string "
+           "(%s, %d constructor(s)) and what() returns that string's characters (%s)" % (nonown, init_ok, len(ctors), from_owned), loc=crec.get("loc", ""))
